@@ -61,11 +61,12 @@ Post(ev) ==
          /\ (a[3].v => ZCmp(Zj(a[4]), Zj(a[5])) = 0)
     [] op = "mag" -> PostMag(Arg(a[1]), o)
     [] op = "frexp" -> PostFrexp(Arg(a[1]), F(ev.o.v[1]), ev.o.v[2].v)
-    [] op = "ldexp" -> PostLdexp(Arg(a[1]), a[2].v, o)
+    [] op = "ldexp" -> PostLdexp(Arg(a[1]), ZToInt(Zj(a[2])), o)
     [] op = "isint" -> PostIsInt(Arg(a[1]), o)
     [] op = "nint_distance" -> PostNintDistance(Arg(a[1]), Zj(ev.o.v[1]), ev.o.v[2])
     [] op = "to_float" -> PostToFloat(Arg(a[1]), ev.o.s, ev.o.be, ZMk(0, ev.o.fr))
     [] op = "from_float" -> o.k = "f" /\ o.v = (IF p = 0 \/ ~IsFin(Arg(a[1])) THEN Arg(a[1]) ELSE RoundDy(Val(Arg(a[1])), p, r))
+    [] op = "pow_int" -> PostPowInt(Arg(a[1]), ZToInt(Zj(a[2])), p, r, o)
     [] op = "none" -> TRUE
 
 Clauses(ev) ==
